@@ -53,7 +53,16 @@ TYPES = {
     "TIME": ("TIME", "TIME(9)", None, None, None, 12),
 }
 TNAMES = list(TYPES)
-SCHEMAS = [("DB1", "S1"), ("DB1", "S2"), ("DB2", "S1")]
+SCHEMAS = [("DB1", "S1"), ("DB1", "S2"), ("DB2", "S1"), ("DB1", "Mixed")]
+
+
+def _qp(part: str) -> str:
+    """A name part as SQL: quoted when it is not what an unquoted identifier folds to."""
+    return part if part == part.upper() else f'"{part}"'
+
+
+def _fqn(k: tuple) -> str:
+    return ".".join(_qp(p) for p in k)
 TABS = ["T1", "T2", "T3"]
 COLN = ["A", "B", "C", "D", "E"]
 
@@ -92,6 +101,13 @@ def gen_cases(tier: str, seed: int):
     yield {"steps": [["create_table", "DB1", "S1", "T1", [["A", "VARCHAR(10)", False], ["B", "VARCHAR(255)", False], ["N", "INT", False]], "c", False, False, False],
                      ["alter_type", "DB1", "S1", "T1", "A", "VARCHAR(300)"], ["alter_type", "DB1", "S1", "T1", "B", "VARCHAR"], ["add_column", "DB1", "S1", "T1", "A", "VARCHAR(10)", True],
                      ["create_table", "DB2", "S1", "T1", [["A", "VARCHAR(10)", False]], None, False, False, False], ["alter_type", "DB2", "S1", "T1", "A", "VARCHAR(255)"]]}
+    # a quoted mixed-case schema, made current with USE and then worked in with bare names
+    yield {"via_use": True,
+           "steps": [["create_table", "DB1", "Mixed", "T1", [["A", "VARCHAR(10)", False], ["N", "INT", False]], "in mixed", False, False, False],
+                     ["add_column", "DB1", "Mixed", "T1", "B", "VARCHAR(255)"], ["comment_on", "DB1", "Mixed", "T1", "new"],
+                     ["create_table", "DB1", "S1", "T1", [["A", "VARCHAR(255)", False]], "in s1", False, False, False],
+                     ["create_table", "DB1", "Mixed", "T1", [["A", "VARCHAR(255)", False], ["Z", "INT", False]], "replaced", True, False, False],
+                     ["set_comment", "DB1", "Mixed", "T1", "other"], ["rename_table", "DB1", "Mixed", "T1", "T9"], ["drop_table", "DB1", "Mixed", "T9"]]}
     # same table name in three places; the namesakes are dropped / re-created one by one
     cols = [["A", "VARCHAR(10)", False], ["N", "NUMBER(10,2)", False]]
     yield {"steps": [["create_table", "DB1", "S1", "T1", cols, "orders of s1", False, False, False], ["create_table", "DB1", "S2", "T1", [["A", "VARCHAR(255)", False]], "of s2", False, False, False],
@@ -137,7 +153,7 @@ def gen_cases(tier: str, seed: int):
                 steps.append(["noop", db, sc, t, r.choice(["set_var", "set_tag", "cluster_by", "unset_var"])])
             else:
                 steps.append(["drop_view", db, sc, r.choice(["V1", "V2"] + TABS)])
-        yield {"steps": steps}
+        yield {"steps": steps, "via_use": r.random() < 0.35}
 
 
 def setup_worker(env: core.Env) -> None:
@@ -157,7 +173,10 @@ def _run(case: dict, env: core.Env, fs: Any) -> None:
     cur = conn.cursor()
     for s in ("CREATE SCHEMA DB1.S2", "CREATE DATABASE DB2", "CREATE SCHEMA DB2.S1"):
         cur.execute(s)
+    cur.execute('CREATE SCHEMA DB1."Mixed"')
     obs = fs.connect("db2", "s1")  # observers run from another context
+    ucon = fs.connect("db1", "s2")
+    ucon_at: list = [("DB1", "S2")]
     model: dict[tuple, dict] = {}  # (db, sc, name) -> {"kind", "cols": [[name, type, notnull, charlen-override]], "comment", "pk"}
     ever: set = set()
     reused = False
@@ -167,7 +186,16 @@ def _run(case: dict, env: core.Env, fs: Any) -> None:
         op = st[0]
         sql = None
         key = (st[1], st[2], st[3])
-        fq = f"{st[1]}.{st[2]}.{st[3]}"
+        fq = _fqn(key)
+        cur = conn.cursor()
+        if case.get("via_use"):
+            # the same statement from a session that made the schema current and names the table by its bare name
+            ucur = ucon.cursor()
+            if ucon_at[0] != (st[1], st[2]):
+                ucur.execute(f"USE SCHEMA {st[1]}.{_qp(st[2])}")
+                ucon_at[0] = (st[1], st[2])
+            cur, fq = ucur, st[3]
+            env.count("unqualified_after_use")
         exists = key in model
         after: Any = None
         if op == "create_table":
@@ -203,7 +231,7 @@ def _run(case: dict, env: core.Env, fs: Any) -> None:
             if exists and (not replace or model[key]["kind"] == "view" or _has_view_on(model, key)):
                 continue
             rep = "OR REPLACE " if replace else ""
-            sql = f"CREATE {rep}TABLE {fq} AS SELECT * FROM {'.'.join(src)}" if op == "ctas" else f"CREATE {rep}TABLE {fq} CLONE {'.'.join(src)}"
+            sql = f"CREATE {rep}TABLE {fq} AS SELECT * FROM {_fqn(src)}" if op == "ctas" else f"CREATE {rep}TABLE {fq} CLONE {_fqn(src)}"
             after = {"kind": "table", "cols": [[c, ty, False] for c, ty, _ in model[src]["cols"]], "comment": None, "pk": None, "tags": {"ctas"}}
             if op == "clone":
                 after["comment"] = model[src]["comment"]
@@ -258,7 +286,7 @@ def _run(case: dict, env: core.Env, fs: Any) -> None:
             k2 = (st[1], st[2], t2)
             if not exists or model[key]["kind"] != "table" or k2 in model or _has_view_on(model, key):
                 continue
-            sql = f"ALTER TABLE {fq} RENAME TO {st[1]}.{st[2]}.{t2}"
+            sql = f"ALTER TABLE {fq} RENAME TO {t2 if case.get('via_use') else _fqn(k2)}"
         elif op in ("comment_on", "set_comment"):
             if not exists or model[key]["kind"] != "table":
                 continue
@@ -269,7 +297,7 @@ def _run(case: dict, env: core.Env, fs: Any) -> None:
             src = (db, sc, t)
             if exists or src not in model or model[src]["kind"] != "table":
                 continue
-            sql = f"CREATE VIEW {fq} AS SELECT * FROM {'.'.join(src)}"
+            sql = f"CREATE VIEW {fq} AS SELECT * FROM {_fqn(src)}"
             after = {"kind": "view", "cols": [[c, ty, False] for c, ty, _ in model[src]["cols"]], "comment": None, "pk": None, "on": src}
         elif op == "drop_view":
             if not exists or model[key]["kind"] != "view":
@@ -497,7 +525,7 @@ def _observe(env: core.Env, conns: dict, model: dict, hist: str, op: str) -> boo
         if rows is None or sorted(rows) != want_v:
             bad("information_schema.views", "differs", f"got {rows} want {want_v}")
         # 6/7. SHOW TABLES / OBJECTS in database + per schema
-        for scope, flt in ([(f"IN DATABASE {db}", None)] + [(f"IN SCHEMA {db}.{sc}", sc) for d2, sc in SCHEMAS if d2 == db]):
+        for scope, flt in ([(f"IN DATABASE {db}", None)] + [(f"IN SCHEMA {db}.{_qp(sc)}", sc) for d2, sc in SCHEMAS if d2 == db]):
             for what, kinds in (("TABLES", ("table",)), ("OBJECTS", ("table", "view")), ("TERSE TABLES", ("table",))):
                 env.count("cmp_show_tables" if "TABLES" in what else "cmp_show_objects")
                 rows = _q(obs, f"SHOW {what} {scope}")
@@ -553,7 +581,7 @@ def _observe(env: core.Env, conns: dict, model: dict, hist: str, op: str) -> boo
         bad("show-primary-keys", "differs", f"got {got_pk} want {want_pk}")
     # 5/10. DESCRIBE + description of SELECT * for every object
     for k, o, vant in [(k, o, v) for k, o in model.items() for v in ("home", "foreign")]:
-        fq = ".".join(k)
+        fq = _fqn(k)
         obs = conns[k[0]] if vant == "home" else conns["DB2" if k[0] == "DB1" else "DB1"]
         vantage[0] = "" if vant == "home" else "/from-other-database-context"
         env.count("cmp_describe")
